@@ -5,7 +5,7 @@ SPEC = {
  "C01": dict(judge="c01", flags_a=["--tokens", "--sort"], flags_b=["--tokens", "--sort", "--ranges"], mode_a="plain", mode_b="wild",
              rule="programs from the grammar-directed generator (6 dialects; every statement and expression kind; random blanks, tabs, newlines, CRLF; semicolons; require blocks; ignore directives), each under its default "
                   "configuration and 2 random configurations (6 column widths incl. 1 and usize::MAX, both indent types, 4 indent widths, both line endings, all quote / call-parentheses / collapse / space options, sort_requires); "
-                  "region A (seeded): comments at statement boundaries; region B (fixed seed, listed per input): comments at any token boundary, byte ranges, plus the repository's test inputs of every dialect",
+                  "region A (seeded): comments at statement boundaries, and (second half) also before and after the commas of expression and argument lists; region B (fixed seed, listed per input): comments at any token boundary, byte ranges, plus the repository's test inputs of every dialect",
              corr="every output is re-parsed by full_moon under the same syntax; the Coq lexer model agrees with full_moon's tokenizer on every input and every output (token lists compared)"),
  "C02": dict(judge="c02", flags_a=["--nf", "--ranges"], flags_b=["--nf", "--ranges"], mode_a="plain", mode_b="wild",
              rule="same generator and configurations as C01, with byte ranges in region A too (sort_requires off, as the property says)",
